@@ -96,7 +96,7 @@ theorem gen_poolingLodG_eq (g0 g1 : ℝ) (h w : Nat) (alpha width dist : ℝ) (q
     poolingLodG g0 g1 h w alpha width dist q i j = poolingLodAt q g0 g1 h w alpha width dist i j := by
   simp only [poolingLodG, poolingLodAt, gen_poolingPixelsG_eq, lodOf, Num.log2, num_ofNat, Nat.cast_zero]
 
-/-- `make_equi_pooling_size_map_pixels` is the model's `equiPoolingPixel` of the (unclamped) angle between the gaze direction
+/-- `make_equi_pooling_size_map_pixels` is the model's `equiPoolingPixel` of the angle (dot product clamped to `[-1, 1]` since fix eb.. F38) between the gaze direction
     and the pixel direction -/
 theorem gen_equiPoolingPixelsG_eq (a0 a1 : ℝ) (h w : Nat) (alpha : ℝ) (q : Bool) (i j : Nat) :
     equiPoolingPixelsG a0 a1 h w alpha q i j = equiPoolingPixelsAt q a0 a1 h w alpha i j := by
@@ -300,7 +300,8 @@ theorem equiDirection_dot_self (yaw pitch : ℝ) : Vec3.dot (equiDirection yaw p
 /-- the equirectangular eccentricity vanishes at the pixel whose yaw / pitch are the gaze angles -/
 theorem equiEccentricityAt_zero_at_gaze (a0 a1 : ℝ) (h w i j : Nat) (hy : equiYaw w j = a0) (hp : equiPitch h i = a1) :
     equiEccentricityAt a0 a1 h w i j = 0 := by
-  simp only [equiEccentricityAt, hy, hp, equiDirection_dot_self, num_acos, Real.arccos_one]
+  simp only [equiEccentricityAt, hy, hp, equiDirection_dot_self, num_acos, clamp_real]
+  norm_num
 
 /-- `maxL` dominates its elements -/
 theorem foldl_maxN_ge (xs : List ℝ) : ∀ a : ℝ, a ≤ xs.foldl Num.maxN a ∧ ∀ x ∈ xs, x ≤ xs.foldl Num.maxN a := by
